@@ -27,7 +27,7 @@ ALL_DOCS = dict(ORIG_DOCS)
 ALL_DOCS.update(NEW_DOCS)
 ALL_DOCS.update(ESC_DOC)
 
-SPACEY = {"hdrB", "lamA", "lamB", "lpre", "lpost"}   # continuation lines: base + blanks
+SPACEY = {"hdrB", "lamA", "lamB", "lpre", "lpost", "lsib"}   # continuation lines: base + blanks
 
 
 def base_col(lay):
@@ -188,6 +188,9 @@ def lambda_parts(lay):
     t1, t2 = {"xy": ("3 * x", "5 * y + G"), "x": ("3 * x", "G"), "none": ("G", "100")}[lp]
     if lb == "compr":
         t2 += " + sum([i for i in range(3)])"
+    elif lb == "nest":      # another lambda inside the body (second part), same value
+        t2 = {"xy": "(lambda q: 5 * q)(y) + G", "x": "(lambda q: q)(G)",
+              "none": "(lambda q: q)(100)"}[lp]
     elif lb == "pp":
         t1, t2 = "(%s)" % t1, "(%s)" % t2
     head = "lambda %s: " % params if params else "lambda: "
@@ -206,9 +209,57 @@ def lambda_pre_post(lay):
             "call": ("fn = keep(", ", 1)"), "paren": ("fn = (", ")")}[e]
 
 
+MULTI = ("dict", "pair", "same")
+
+
+def multi_lines(case):
+    """Statements holding several lambdas: the entry lay.pick is the lambda of the layout, the
+    others are siblings with another signature and other values."""
+    lay, text = case["lay"], case["text"]
+    a, b = lambda_parts(lay)
+    e, pick = lay["embed"], lay["pick"]
+    n = 3 if e == "dict" else 2
+    sib = lambda i: "lambda z: z - %d" % (1000 + i)
+    key = lambda i: '"k%d": ' % i if e == "dict" else ""
+    opener = "TABLE = {" if e == "dict" else "p1, p2 = mk("
+    closer = "}" if e == "dict" else ")"
+    if e == "same":
+        ents = [a if i == pick else sib(i) for i in (1, 2)]
+        return [[text[0]["id"], "lamA", opener + ", ".join(ents) + closer, a]]
+    out, it = [], iter(text)
+    for i in range(1, n + 1):
+        head = (opener if i == 1 else "") + key(i)
+        tail = closer if i == n else ","
+        ln = next(it)
+        if i != pick:
+            out.append([ln["id"], "lsib", head + sib(i) + tail, None])
+        elif b is None:
+            out.append([ln["id"], "lamA", head + a + tail, a])
+        else:
+            out.append([ln["id"], "lamA", head + a, a])
+            ln = next(it)
+            out.append([ln["id"], "lamB", b + tail, b])
+    return out
+
+
+def lambda_object(ns, lay):
+    """The lambda object of the layout in the namespace of the executed module."""
+    get = ns.get if isinstance(ns, dict) else (lambda k: getattr(ns, k))
+    if lay["embed"] == "dict":
+        return get("TABLE")["k%d" % lay["pick"]]
+    if lay["embed"] in ("pair", "same"):
+        return get("p%d" % lay["pick"])
+    return get("fn")
+
+
 def lambda_lines(case, for_oracle=False):
     """[(id, kind, text without indentation, lambda part of it)] per physical line."""
     lay, text = case["lay"], case["text"]
+    if lay["embed"] in MULTI:
+        out = multi_lines(case)
+        if lay["cmt"]:
+            out[-1][2] += "  # trailing L%d_" % out[-1][0]
+        return out
     a, b = lambda_parts(lay)
     pre, post = lambda_pre_post(lay)
     if for_oracle and lay["embed"] == "bare":
@@ -278,7 +329,8 @@ def render(case, for_oracle=False):
     res = {"lines": lines, "keys": keys}
     res["text"] = "\n".join(lines) + ("\n" if case.get("eofnl", True) else "")
     pre = ["import modelx as mx", "", "def _p(f):", "    return f", "", "def _pc(*a, **k):",
-           "    return _p", "", "def keep(f, *a, **k):", "    return f", ""]
+           "    return _p", "", "def keep(f, *a, **k):", "    return f", "",
+           "def mk(*a):", "    return a", ""]
     for ln in text:
         if ln["k"] == "deco1":
             pre.append("deco_%d = _p" % ln["id"])
@@ -295,7 +347,7 @@ def plain_values(case, g):
     src = render(case, for_oracle=True)["module"].replace("import modelx as mx\n", "")
     ns = {"G": g}
     exec(compile(src, "<c20-oracle>", "exec"), ns)
-    fn = ns["f"] if case["lay"]["form"] in ("deftext", "funcobj") else ns["fn"]
+    fn = ns["f"] if case["lay"]["form"] in ("deftext", "funcobj") else lambda_object(ns, case["lay"])
     return [_call(fn, a) for a in SAMPLES]
 
 
